@@ -28,7 +28,13 @@ type Case struct {
 }
 
 func gen(t *rapid.T) Case {
-	p := jgen.GenProject(t, jgen.Opts{Layout: true, Interfaces: true, RichDecl: true, MaxUnits: 8, MultiByte: true, WordNames: true, WordDirs: true, ModuleLayout: true, Bodies: rapid.IntRange(0, 3).Draw(t, "bodies") == 0})
+	p := jgen.GenProject(t, jgen.Opts{Layout: true, Interfaces: true, RichDecl: true, MaxUnits: 8, MultiByte: true, WordNames: true, WordDirs: true, ModuleLayout: true, LongLines: true, Bodies: rapid.IntRange(0, 3).Draw(t, "bodies") == 0})
+	// some files end their lines with CR LF
+	for i := range p.Files {
+		if strings.HasSuffix(p.Files[i].Path, ".java") && rapid.IntRange(0, 7).Draw(t, "crlf") == 0 {
+			p.Files[i].Text = strings.ReplaceAll(p.Files[i].Text, "\n", "\r\n")
+		}
+	}
 	return Case{Project: p, CLI: rapid.IntRange(0, 11).Draw(t, "cli") == 0}
 }
 
@@ -253,6 +259,59 @@ func classify(c Case) pbt.Verdict {
 			v.Classes = append(v.Classes, "excluded_"+u.Role)
 		}
 	}
+	// physical line structure of the main files
+	for i, u := range c.Project.Units {
+		if u.Role != "main" {
+			continue
+		}
+		for _, ft := range u.Features {
+			switch ft {
+			case "flat_unit", "flat_member", "wide_parameter_list", "long_comment", "long_literal":
+				v.Classes = append(v.Classes, ft)
+			}
+		}
+		text := c.Project.Files[i].Text
+		if strings.Contains(text, "\r\n") {
+			v.Classes = append(v.Classes, "crlf_file")
+		}
+		longest := 0
+		for _, l := range strings.Split(text, "\n") {
+			if len(l) > longest {
+				longest = len(l)
+			}
+		}
+		switch {
+		case longest > 65536:
+			v.Classes = append(v.Classes, "line_longer_than_65536_bytes")
+		case longest > 4096:
+			v.Classes = append(v.Classes, "line_longer_than_4096_bytes")
+		case longest > 1000:
+			v.Classes = append(v.Classes, "line_longer_than_1000_bytes")
+		}
+		nameLen, params := 0, 0
+		for _, f := range u.Funcs {
+			if len(f.Name) > nameLen {
+				nameLen = len(f.Name)
+			}
+			if len(f.Params) > params {
+				params = len(f.Params)
+			}
+			for _, p := range f.Params {
+				if len(p.Name) > nameLen {
+					nameLen = len(p.Name)
+				}
+			}
+		}
+		switch {
+		case nameLen > 4096:
+			v.Classes = append(v.Classes, "name_longer_than_4096")
+		case nameLen > 40:
+			v.Classes = append(v.Classes, "name_longer_than_40")
+		}
+		if params >= 100 {
+			v.Classes = append(v.Classes, "at_least_100_parameters")
+		}
+	}
 	for _, f := range c.Project.Files {
 		if !strings.HasSuffix(f.Path, ".java") && f.Path != ".gitignore" {
 			nOther++
@@ -293,11 +352,12 @@ func classify(c Case) pbt.Verdict {
 func init() {
 	pbt.SetProperty("C01")
 	jgen.SetExcluded(pbt.Excluded)
-	pbt.Describe("rapid-generated conventional Java trees (jgen): 1-8 units over 1-3 packages in flat / nested / Maven / multi-module Maven (core/src/main/java, contest-api/src/test/java) / deep layouts, classes (some abstract, generic) and interfaces with fields, constructors, methods (modifier permutations, generic methods, overloads, arrays, generic types, final parameters), class-level annotations of five argument forms, superclasses (project class same package / imported, imported external, unimported, generic), comments and layout noise; class names that are ordinary words which merely contain the letters of a test name (ending in ...test / ...tests in lower case: Contest, Latest, Protests, Shortest; Test in the middle: ...TestHelper, ...Attestation) or other words the tool keys on elsewhere (...Service, ...Util, ...Main, ...Nullable, ...Todo), method names getX / setX / isX / testX / shouldX / mainX, package directories containing the letters test (com/acme/contest, org/demo/latest/api, app/attest); mixed with test files (*Test.java, *Tests.java, src/test/java/), files ignored through .gitignore (directory pattern and *Suffix.java pattern) and non-Java files. Oracle: the ground truth recorded while printing; both directions (each declared type/function exactly once with its attributes; no other named entry). Judged for JavaIdentifierApp.AnalysisPath, JavaFullApp.AnalysisPath(dir, identifiers) and, for one case in twelve, the files written by the sub-process `coca analysis -p DIR`. Non-trivial = at least 2 units, at least one included and one excluded file, and a type with >= 2 functions; distinct = hash of the whole case.",
+	pbt.Describe("rapid-generated conventional Java trees (jgen): 1-8 units over 1-3 packages in flat / nested / Maven / multi-module Maven (core/src/main/java, contest-api/src/test/java) / deep layouts, classes (some abstract, generic) and interfaces with fields, constructors, methods (modifier permutations, generic methods, overloads, arrays, generic types, final parameters), class-level annotations of five argument forms, superclasses (project class same package / imported, imported external, unimported, generic), comments and layout noise; class names that are ordinary words which merely contain the letters of a test name (ending in ...test / ...tests in lower case: Contest, Latest, Protests, Shortest; Test in the middle: ...TestHelper, ...Attestation) or other words the tool keys on elsewhere (...Service, ...Util, ...Main, ...Nullable, ...Todo), method names getX / setX / isX / testX / shouldX / mainX, package directories containing the letters test (com/acme/contest, org/demo/latest/api, app/attest); physical lines of any length: a member (annotations and body included) or a whole unit written on one line as generated / minified code is, parameter lists with 20-120 further parameters on one line (the all-arguments constructor of a data class; at most 255 argument slots), method and variable names of 41-300 and occasionally 4100-5200 characters, block comments of 500-6000 (occasionally 60000-70000) bytes in front of the package declaration or of a member on its line, string literals of that length as field initialisers, so that lines exceed 4 KiB and occasionally 64 KiB; one file in eight with CR LF line ends; mixed with test files (*Test.java, *Tests.java, src/test/java/), files ignored through .gitignore (directory pattern and *Suffix.java pattern) and non-Java files. Oracle: the ground truth recorded while printing; both directions (each declared type/function exactly once with its attributes; no other named entry). Judged for JavaIdentifierApp.AnalysisPath, JavaFullApp.AnalysisPath(dir, identifiers) and, for one case in twelve, the files written by the sub-process `coca analysis -p DIR`. Non-trivial = at least 2 units, at least one included and one excluded file, and a type with >= 2 functions; distinct = hash of the whole case.",
 		"identifier pass: FilePath and parameter lists are never recorded for any input, so they are asserted on the full pass only (DESIGN.md section 5)",
 		"interfaces are generated without `extends` (the statement speaks of a superclass)",
 		"paths containing `testData` are not generated: the statement does not say whether they count as ignored",
 		"type texts are compared after removing blanks",
+		"class names stay shorter than a file name may be (255 bytes); only method and variable names get the very long forms",
 		"a main file is never named with the capitalised suffix Test / Tests, the prefix Test, the suffix TestCase or an upper-case TEST / TESTS ending, and never lies under a directory called test or tests: the statement does not define `test file`, and for those names a reader could argue either way; names that only contain the letters (Contest.java, com/acme/latest/) are ordinary main files under every reading")
 	pbt.Register("model", 250, 2500, gen, check)
 }
